@@ -43,6 +43,18 @@ NoDup(s) == Cardinality({s[k] : k \in 1..Len(s)}) = Len(s)
 AsyncConsumer(r) == r.mode = "free" \/ \E k \in 1..Len(r.acts) : r.acts[k] = "RecvBlocked"
 Bound(r) == (IF r.W = 0 THEN 1 ELSE r.cap + r.W) + (IF AsyncConsumer(r) THEN 1 ELSE 0)
 
+\* Buffered (C09): same observables, its own constants
+BFree(r) == r.ctl = "free"
+BPulls(r, m) == IF BFree(r) THEN Max2(m.pulls, r.total_pulls) ELSE m.pulls
+BClauses(r, m) == <<
+    <<"buffered_in_order", \A k \in 1..Len(m.out) : m.out[k] = k - 1>>,
+    <<"buffered_complete", m.ended => Len(m.out) = r.N>>,
+    <<"buffered_lookahead", m.maxLook <= r.cap + 1 + (IF BFree(r) THEN 1 ELSE 0)>>,
+    <<"buffered_pulls_after_drop", m.dropped => BPulls(r, m) <= m.pullsAtDrop + 1>>,
+    <<"buffered_producer_exits", (r.drained /\ ~m.stuck) => m.allExited>>,
+    <<"progress", ~m.stuck>>
+>>
+
 PClauses(r, m) == <<
     <<"upstream_sequential", m.pullOk>>,
     <<"in_order", \A k \in 1..Len(m.out) : m.out[k] = k - 1>>,
